@@ -568,7 +568,7 @@ class Fn:
         return "<fn %s @%s>" % (self.p, self.span.loc())
 
 
-_NORM = re.compile(r"\b(std|alloc)::")
+_NORM = re.compile(r"\b(?:[a-z_0-9]+::)?(?:std|alloc|core)::")
 
 
 def _norm(s):
